@@ -46,6 +46,8 @@ def oracle(cases, obs, twin_obs):
                 fails.append((i, k, "definitions differ from those of the fault-free run")); break
             if tr and any(x in tr for x in ("dup", "ran_untriggered")):
                 fails.append((i, k, f"a task outside the triggered set ran, or one ran twice: {tr}")); break
+            if op[0] == "set" and str(o["err"]).startswith("Masked:"):
+                fails.append((i, k, f"the exception raised by the failing write did not reach the caller: it was caught and {o['err'][7:]} raised instead")); break
             if op[0] == "set" and armed is not None:
                 # how many writes does the fault-free update perform?  (1 + triggered tasks, expression/function tasks)
                 nwrites = 1 + (tr or {}).get("n_triggered", 0) if tr else None
@@ -98,6 +100,14 @@ def systematic_cases():
              ["set", R("b"), ["expr", ["bin", "*", ["ref", N("x")], ["const", 3]]]],
              ["set", R("c"), ["expr", ["bin", "+", ["ref", R("b")], ["ref", R("a")]]]]]
     store2 = [["c", {"kind": "dict", "items": [["a", 0], ["b", 0], ["c", 0], ["n", {"kind": "obj", "items": [["x", 0], ["y", 5]]}]]}]]
+    # every public route of the assignment (set_value, owner[key] = v, DepEnv proxy item / attribute style) x how the container
+    # was handed to the manager (ref / refattr / newenv) x every injected exception class x crash positions
+    for root, route in (("ref", "sv"), ("ref", "item"), ("refattr", "item"), ("env", "env"), ("env", "envattr")):
+        st = [["c", dict(store1[0][1], root=root)]]
+        for kind in sorted(set(mc.FAULT_KINDS)):
+            for k in (0, 2, 5):
+                out.append({"store": st, "ops": list(defs1) + [["arm", k, kind], ["set", R("a"), ["plain", 4], route], ["disarm"],
+                                                                  ["set", R("a"), ["plain", 4], route]]})
     for store, defs, nmax in ((store1, defs1, 7), (store2, defs2, 5)):
         for k in range(nmax):
             for k2 in (None, 0, k):
